@@ -11,6 +11,7 @@ _SERIAL = [0]
 
 SM = ["sm"]          # name of the scenario manager the factory registers (a harness may switch it, e.g. to "2024")
 RUNSPEC = [1.0, 10.0, 1.0]
+TWO = [False]        # True: the factory registers a second manager "sm2" (another model) and sessions span both managers
 
 def make_bptk():
     m = Model(starttime=RUNSPEC[0], stoptime=RUNSPEC[1], dt=RUNSPEC[2], name="m")
@@ -20,6 +21,12 @@ def make_bptk():
     b.register_model(m)
     b.register_scenario_manager({SM[0]: {"model": m}})
     b.register_scenarios(scenario_manager=SM[0], scenarios={"base": {"constants": {"c": 1.0}}})
+    if TWO[0]:
+        m2 = Model(starttime=RUNSPEC[0], stoptime=RUNSPEC[1], dt=RUNSPEC[2], name="m2")
+        s2 = m2.stock("s"); f2 = m2.flow("f"); c2 = m2.constant("c")
+        s2.initial_value = 5.0; c2.equation = 3.0; f2.equation = c2 * 2.0; s2.equation = f2
+        b.register_scenario_manager({"sm2": {"model": m2}})
+        b.register_scenarios(scenario_manager="sm2", scenarios={"base": {"constants": {"c": 3.0}}})
     orig = b.destroy
     _SERIAL[0] += 1
     b._verif_serial = _SERIAL[0]
@@ -52,7 +59,7 @@ def start(client, headers=None, timeout=None):
     return json.loads(r.data)["instance_uuid"]
 
 def begin(client, u, headers=None):
-    return client.post("/%s/begin-session" % u, json=dict(BEGIN, scenario_managers=[SM[0]]), headers=headers or {})
+    return client.post("/%s/begin-session" % u, json=dict(BEGIN, scenario_managers=[SM[0]] + (["sm2"] if TWO[0] else [])), headers=headers or {})
 
 def digest(app):
     """server-side state that a refused request must not change"""
@@ -73,15 +80,17 @@ def run(case):
     from BPTK_Py.externalstateadapter import FileAdapter
     tmpd = tempfile.mkdtemp(prefix="c18_")
     try:
-        return _run(case, make_app(adapter=FileAdapter(False, tmpd)))
+        FakeClock.now_value = _real_datetime.datetime(2030, 1, 1, 0, 0, 0)
+        return _run(case, make_app(fake_clock=True, adapter=FileAdapter(False, tmpd)))
     finally:
         shutil.rmtree(tmpd, ignore_errors=True)
 
 def _run(case, app):
     client = app.test_client()
-    u = start(client); begin(client, u)
+    u = start(client, timeout={"seconds": 30}); begin(client, u)
     inst = app._instance_manager._instances[u]["instance"]
     open_stream = None
+    stream_live = False      # the harness' own view: a stream was opened, not read to its end and not closed
     times = []         # all simulation times returned by successful responses, in order of production
     def clock():
         return inst.session_state["step"]
@@ -101,8 +110,15 @@ def _run(case, app):
                             out.extend(float(t) for t in series.keys())
         return out
     for n, op in enumerate(case):
-        locked_before = inst.is_locked()
+        locked_before = inst.is_locked() or stream_live
         c0 = clock()
+        if op[0] == "wait":
+            # time passes (more than a third of the instance timeout) while the client keeps the instance alive
+            FakeClock.advance(11)
+            r = client.post("/%s/keep-alive" % u)
+            if r.status_code != 200:
+                return "op %d %r: keep-alive answered %d" % (n, op, r.status_code)
+            continue
         if op[0] == "steps":
             r = client.post("/%s/run-steps" % u, json=dict(SET, numberSteps=op[1]))
             if locked_before:
@@ -188,11 +204,12 @@ def _run(case, app):
             r = client.post("/%s/stream-steps" % u, json=SET, buffered=False)
             it = iter(r.response)
             chunks = []
+            stream_live = True
             try:
                 for _ in range(op[1]):
                     chunks.append(next(it))
             except StopIteration:
-                pass
+                stream_live = False
             open_stream = (r, it, chunks)
             if not inst.is_locked() and len(chunks) == op[1] and op[1] > 0:
                 return "op %d %r: stream in progress but the instance is not locked" % (n, op)
@@ -200,6 +217,7 @@ def _run(case, app):
             r, it, chunks = open_stream
             r.close()
             open_stream = None
+            stream_live = False
             if inst.is_locked():
                 return "op %d %r: lock not released after the client went away" % (n, op)
         elif op[0] == "stream_finish" and open_stream is not None:
@@ -208,6 +226,7 @@ def _run(case, app):
                 chunks.append(ch)
             r.close()
             open_stream = None
+            stream_live = False
             text = "".join(c.decode() if isinstance(c, bytes) else c for c in chunks)
             try:
                 got = parse_steps(json.loads(text))
@@ -224,7 +243,7 @@ def _run(case, app):
         return "a simulation time was produced twice: %r" % (times,)
     return None
 
-case = [('step',), ('bad_step',), ('step',), ('bad_steps2',), ('steps', 2)]
+case = [('stream_open', 2), ('wait',), ('step',), ('wait',), ('wait',), ('steps', 1), ('wait',), ('step',), ('steps', 2), ('stream_finish',)]
 bad = run(case)
 print("script:", case)
 print("FAIL: " + bad if bad else "PASS")
